@@ -324,7 +324,7 @@ func coqList(name string, xs []string) string {
 
 func main() {
 	repo := flag.String("repo", "/repo", "repository root")
-	out := flag.String("out", "/verif/coq/Gen/ReaderUse.v", "output file")
+	out := flag.String("out", "/verif/coq/Gen", "output directory for ReaderUse.v (a path ending in .v is taken as the file itself)")
 	flag.Parse()
 	absRepo, err := filepath.Abs(*repo)
 	must(err)
@@ -364,5 +364,9 @@ func main() {
 	b.WriteString(coqList("lexer_uses_in_parser", lexUses.sorted()))
 	b.WriteString(coqList("lexer_inits_in_parser", lexInits.sorted()))
 	b.WriteString(coqList("io_reader_uses_in_parser", ioUses.sorted()))
-	writeIfChanged(*out, []byte(strings.TrimRight(b.String(), "\n")+"\n"))
+	outFile := *out
+	if !strings.HasSuffix(outFile, ".v") {
+		outFile = filepath.Join(outFile, "ReaderUse.v")
+	}
+	writeIfChanged(outFile, []byte(strings.TrimRight(b.String(), "\n")+"\n"))
 }
